@@ -28,6 +28,10 @@ def scenarios(tier):
     if not q:
         out.append(dict(name="roms-N6-P1-R2-RK4", fn="run", params=dict(N=6, P=1, R=2, adv="RK4", roms=True), cost=90))
     out.append(dict(name="leaves-grid-N6-P1-R1-EF", fn="run", params=dict(N=6, P=1, R=1, adv="EF", fast=True), cost=30))
+    for ss in (0, 1):
+        out.append(dict(name=f"settled-N6-P1-R2-EF-s{ss}", fn="run", params=dict(N=6, P=1, R=2, adv="EF", settle=True, settle_step=ss), cost=30))
+    out.append(dict(name="discrete-offgrid-N6-P1-R1-EF", fn="run", params=dict(N=6, P=1, R=1, adv="EF", discrete_off=250), cost=30))
+    out.append(dict(name="reversed-N6-P1-R2-EF", fn="run", params=dict(N=6, P=1, R=2, adv="EF", rev=True), cost=30))
     out.append(dict(name="legacy-N6-P1-R2-EF", fn="run", params=dict(N=6, P=1, R=2, adv="EF", legacy=True), cost=30))
     # release table with a second source at a symbolic step (on or off the release-frequency grid of the first row)
     out.append(dict(name="tworows-N6-P1-R1-EF", fn="run", params=dict(N=6, P=1, R=1, adv="EF", tworows=True), cost=40))
@@ -41,12 +45,14 @@ def scenarios(tier):
 def _config(W, tmp, sub, p, x0, u, temp, w0, kill, warm=None, first_file=None):
     N, P, R = p["N"], p["P"], p["R"]
     ivars = dict(pid=ovar("i4"), X=ovar("f8"), Y=ovar("f8"), Z=ovar("f8"), age=ovar("f8"), temp=ovar("f8"))
+    if p.get("settle"):
+        ivars["active"] = ovar("i1")  # the activity flag is saved so that a restart can restore it
     pvars = dict(w0=ovar("f8"))
     cfg = base_config(
-        W, start=T0, stop=T0 + N * DT, dt=DT, release_file=tmp / "r.rls", u=u, temp=temp, advection=p["adv"],
+        W, start=T0, stop=T0 + (-1 if p.get("rev") else 1) * N * DT, dt=DT, rev=bool(p.get("rev")), release_file=tmp / "r.rls", u=u, temp=temp, advection=p["adv"],
         state=dict(instance_variables=dict(age=float, temp=float), particle_variables=dict(w0=float), default_values=dict(age=0, temp=0)),
-        release=dict(continuous=True, release_frequency=2 * DT),
-        ibm=dict(kill=kill, age=True, kill_t0=W.dt(T0)),  # deaths are tied to absolute time, not to the run's own step counter
+        release=(dict(continuous=True, release_frequency=2 * DT) if not p.get("discrete_off") else dict()),
+        ibm=dict(kill=kill, age=True, kill_t0=W.dt(T0), settle=({p["settle_step"]: {0: True}} if p.get("settle") else None)),  # deaths are tied to absolute time, not to the run's own step counter
         output=dict(filename=str(sub / (first_file or "out.nc")), output_period=P * DT, instance_variables=ivars, particle_variables=pvars, numrec=R),
         warm_start=(dict(filename=str(warm), variables=["age", "temp", "w0"]) if warm else {}),
     )
@@ -84,6 +90,10 @@ def run(W, p):
     # continuous release from the start (one row, every 2 steps)
     if p.get("roms"):
         W.table(tmp / "r.rls", ["release_time", "X", "Y", "Z", "w0"], [[W.dt(T0), x0, 3, W.real("z0", 0, 99), w0]])
+    elif p.get("discrete_off") is not None:
+        # discrete release, second row off the model's time grid (it is released at the step that contains it)
+        r2 = W.idx(W.int("second_row_step", 1, N - 2))
+        W.table(tmp / "r.rls", ["release_time", "X", "Y", "Z", "w0"], [[W.dt(T0), x0, 10, 5, w0], [W.dt(T0 + r2 * DT + p["discrete_off"]), x0 + 1, 12, 7, w0 + 1]])
     elif p.get("tworows"):
         r2 = W.idx(W.int("second_row_step", 1, N - 2))
         W.table(tmp / "r.rls", ["release_time", "X", "Y", "Z", "w0"], [[W.dt(T0), x0, 10, 5, w0], [W.dt(T0 + r2 * DT), x0 + 1, 12, 7, w0 + 1]])
@@ -122,7 +132,7 @@ def run(W, p):
             conds.append(_eq(W, va["time"][r] + ra, vb["time"][r] + rb) if not (W.is_fill(va["time"][r]) or W.is_fill(vb["time"][r])) else False)
             conds.append(_eq(W, va["particle_count"][r], vb["particle_count"][r]))
         ninst = sum(int(c) for c in va["particle_count"] if not W.is_fill(c))
-        for var in ("pid", "X", "Y", "Z", "age", "temp"):
+        for var in ("pid", "X", "Y", "Z", "age", "temp") + (("active",) if p.get("settle") else ()):
             xa, xb = va[var][:ninst], vb[var][:ninst]
             if len(xb) < len(xa):
                 conds.append(False)
